@@ -65,6 +65,10 @@ def gen_cases(tier, seed):
         prc.append({'kind': 'process', 'ending': ['return-unpicklable'], 'first': acc})
         prc.append({'kind': 'process', 'ending': ['os-exit', 7], 'first': acc})
         thr.append({'kind': 'thread', 'ending': ['return-unpicklable'], 'first': acc})
+    for acc in ('join', 'result', 'exitcode'):
+        prc.append({'kind': 'process', 'ending': ['no-target'], 'first': acc})
+    for acc in ('join', 'result'):
+        thr.append({'kind': 'thread', 'ending': ['no-target'], 'first': acc})
     # Thread: accessor used in the instant after start() (the Future must exist already)
     for acc in ('wait', 'as_completed', 'exception', 'result'):
         for i in range(6):
@@ -72,10 +76,10 @@ def gen_cases(tier, seed):
     if tier == 'quick':
         rng.shuffle(prc)
         rng.shuffle(sig)
-        must = [c for c in prc if c['ending'][0] in ('return-unpicklable', 'os-exit')]
+        must = [c for c in prc if c['ending'][0] in ('return-unpicklable', 'os-exit', 'no-target')]
         rare = [c for c in sig if c['ending'][1] not in ('SIGTERM', 'SIGKILL', 'SIGSEGV', 'SIGABRT', 'SIGINT')]
-        usual = [c for c in prc if c['ending'][0] not in ('return-unpicklable', 'os-exit')]
-        cases = thr + usual[:70] + must[:6] + [c for c in sig if c not in rare][:34] + rare[:12]
+        usual = [c for c in prc if c['ending'][0] not in ('return-unpicklable', 'os-exit', 'no-target')]
+        cases = thr + usual[:70] + must[:6] + [c for c in must if c['ending'][0] == 'no-target'] + [c for c in sig if c not in rare][:34] + rare[:12]
     else:
         cases = thr + prc + sig
     rng.shuffle(cases)
@@ -130,7 +134,10 @@ def run_case(case):
         fz.add_site(mt.Thread.run, 'def run(self):', prob=1.0, delay=0.01, where='after', name='thread-run-first-line')
         fz.start()
     kept_kwargs = None
-    if is_proc:
+    if ending[0] == 'no-target':
+        # nothing to run: the degenerate way to end; everything must report "returned None"
+        w = mm.Process() if is_proc else mt.Thread()
+    elif is_proc:
         if hash(repr((ending, case['first']))) % 2 == 0:
             # the caller builds the keyword arguments in a dict of its own and keeps it (a config object, a loop variable, ...)
             kept_kwargs = {'ready': ready}
@@ -228,7 +235,9 @@ def run_case(case):
         j, res, exc = results['join'], results['result'], results['exception']
         ec = results.get('exitcode', ('ok', None))[1]
         expect = None  # ('value', v) | ('error', typename, args|None, code)
-        if ending[0] == 'return':
+        if ending[0] == 'no-target':
+            expect = ('value', None)
+        elif ending[0] == 'return':
             expect = ('value', _real(ending[1]))
         elif ending[0] == 'raise':
             # the truth is what constructing the exception gives in this interpreter (OSError(2, ..) is a FileNotFoundError; args may differ from the call)
@@ -296,7 +305,7 @@ def run_case(case):
                 bad('accessors-disagree', f'join/result/exception report different errors: {[(n, repr(e)) for n, e in errs]}')
         if is_proc and isinstance(ec, int):
             want = None
-            if ending[0] == 'return' or (ending[0] == 'exit' and ending[1] in (None, 0)):
+            if ending[0] in ('return', 'no-target') or (ending[0] == 'exit' and ending[1] in (None, 0)):
                 want = 0
             elif ending[0] == 'raise':
                 want = 1
